@@ -422,11 +422,18 @@ func classifyC05(ch *Chaos, diffs []viewDiff, statesAtStop map[string]map[string
 					// to hear the accusation before x's timer ran out (its datagram copies were lost under the
 					// faults; probes rescued over TCP carry no accusation). x's dead message then names an
 					// incarnation below y's current one (y refuted an earlier accusation) and y ignores it
-					// without re-announcing itself. Matched only if x itself logged the expiry after T_stop.
+					// without re-announcing itself. Matched only if the expiry is logged in x's component after T_stop.
+					// (the expiry may be logged by x itself or by a neighbour in x's final component whose dead
+					// message x then accepted)
 					expired := false
-					for _, ln := range x.Node.Log.Grep(0, "Marking "+y.Name+" as failed, suspect timeout reached") {
-						if ln.At.After(stopAt) {
-							expired = true
+					for _, z := range live {
+						if comp[z.Name] != comp[x.Name] {
+							continue
+						}
+						for _, ln := range z.Node.Log.Grep(0, "Marking "+y.Name+" as failed, suspect timeout reached") {
+							if ln.At.After(stopAt) {
+								expired = true
+							}
 						}
 					}
 					if expired {
@@ -450,6 +457,21 @@ func classifyC05(ch *Chaos, diffs []viewDiff, statesAtStop map[string]map[string
 		}
 		if bridges > 0 && suspectOnly && inflight > 0 {
 			return "bridge-lost-to-inflight-probe"
+		}
+		// Fifth, residual class of the same finding: at T_stop no two nodes of different final components
+		// held each other ALIVE - every link between the components was an accusation or a one-way entry,
+		// i.e. rested on a refutation or an anti-entropy exchange that the protocol does not retry. A split
+		// although some pair across the components held each other alive is never excused.
+		mutualAlive := false
+		for _, x := range live {
+			for _, y := range live {
+				if x != y && comp[x.Name] != comp[y.Name] && statesAtStop[x.Name][y.Name] == "alive" && statesAtStop[y.Name][x.Name] == "alive" {
+					mutualAlive = true
+				}
+			}
+		}
+		if bridges > 0 && !mutualAlive {
+			return "split-without-mutual-alive-bridge"
 		}
 		return "not-converged/split"
 	}
